@@ -239,9 +239,15 @@ def register(props):
                       "(describable + links => UnserializeScope(SelfSerialize s) = erase s and the second description is identical), "
                       "C09_transport / C09_transport_any / C09_transport_plugin (the CBOR normal form of a description is rebuilt to "
                       "the same result, for every scope and plugin), C09_behaviour (the rebuilt schema unserializes every input in "
-                      "every environment exactly like the original), C09_plugin (whole plugin schemas with signal data schemas), "
+                      "every environment exactly like the original), C09_behaviour_all_paths (the same for Validate, Serialize and "
+                      "data-mode ValidateCompatibility: identical outcome - value, or error with class and path - on every value, every "
+                      "fuel, every environment; plain equality, because TreatEmptyAsDefaultValue - all that `erase` drops - is read only "
+                      "by struct-mapped objects and a typed string enum is not describable), C09_erase_invisible_all_paths (no "
+                      "hypothesis on the schema), C09_behaviour_plugin_all_paths (every data schema of a rebuilt plugin schema), "
+                      "C09_plugin (whole plugin schemas with signal data schemas), "
                       "C09_not_describable_refuted (the hypothesis is necessary: D28, D29, D69 witnesses). NOT proved: YAML transport "
-                      "(tested on every case through yaml.v3); Validate / Serialize of the rebuilt schema (tested on every case); "
+                      "(tested on every case through yaml.v3); behaviour of a rebuilt schema whose ORIGINAL was struct-mapped (the "
+                      "rebuilt one is map-based: different Go values by construction; tested, class exclusion as in C03); "
                       "C09_accepted through the generated 1300-line table (DESIGN section 10 fall-back): the agreement of describe / rebuild / "
                       "describable with the real SelfSerialize, UnserializeScope and UnserializeSchema is checked on every generated "
                       "case of c09describe and every mutant of c10mutants instead.",
